@@ -187,6 +187,13 @@ func handleSUR() diam.HandlerFunc {
 			sua.ServiceRating.Price = monetaryCost
 		// price for the reserved units
 		case charging_datatype.REQ_SUBTYPE_RESERVE:
+			if unitCost == 0 {
+				// zero or unparsable tariff: no unit can be priced, but the request is still answered
+				logger.RatingLog.Warnf("Unit cost [%s] of UE [%s] RG [%d] cannot be applied", unitCostStr, subscriberId, rg)
+				sua.ServiceRating.AllowedUnits = datatype.Unsigned32(0)
+				sua.ServiceRating.Price = datatype.Unsigned32(0)
+				break
+			}
 			sua.ServiceRating.AllowedUnits = sr.MonetaryQuota / unitCost
 			sua.ServiceRating.Price = sua.ServiceRating.AllowedUnits * unitCost
 		default:
